@@ -2,23 +2,31 @@
    environment (Script.v), from ANY state that satisfies the safety invariant `Safe` (Lemmas_C03b;
    every reachable state does: C03_safe_reachable) and the control invariant J (Lemmas_Ctl; every
    reachable state does: J_in_domain), repeated cat_service calls reach quiescence (status OK)
-   after finitely many calls, provided the handlers' scripts never ask for HOLD any more, the
-   command is not currently held, and events triggered from inside handlers name pool commands.
-   Exhausted handler scripts answer a terminal code (Script.default_res), so every handler loop
-   ends.  Proofs are in Lemmas_C15ba.v (pure step functions) and Lemmas_C15b.v (scripted world).
+   after a bounded number of calls, provided the handlers' scripts never ask for HOLD any more,
+   the command is not currently held, and events triggered from inside handlers name pool
+   commands.  Exhausted handler scripts answer a terminal code (Script.default_res), so every
+   handler loop ends.  Proofs: Lemmas_C15ba.v (the measure, the pure step functions),
+   Lemmas_C15b.v (the scripted world: every call that does not answer OK strictly decreases the
+   measure).
 
    Definitions used in the statements (TermDefs.v, SchedDefs.v):
      script_left h      total number of scripted handler results still to be consumed
      no_hold_res r      r_code r <> RC_HOLD
      res_calls_ok D r   every ITrigger ci _ in r_calls r has ci < length (pool D)
      script_ok P h      every result of every script of h satisfies P
-     svc D w            one cat_service call (step ... OService); nsvc D n = n calls *)
-From Coq Require Import List NArith ZArith Bool Arith.
+     svc D w            one cat_service call (step ... OService); nsvc D n = n calls
+     max_vars D         largest number of variables of a command of the pool
+     cost_u D           = 10 * (max_vars D + 1) * (3 * usz_of D + 14)
+     cost_c D           = 21 * (ncmds D + max_vars D + 1) * 7 * (3 * asz_of D + 14)
+     C15_bound D w      = script_left (hs w) * ((d_cap D + 1) * cost_u D + cost_c D)
+                          + length (inq (io w)) * cost_c D + u_count (u (st w)) * cost_u D
+                          + cost_u D + cost_c D *)
+From Coq Require Import List NArith ZArith Bool Arith Lia.
 From CatV Require Import Bytes Defs Codec Fsm Script TraceDefs Skel SkelInv ResolveDefs SchedDefs TermDefs.
 From CatV Require Import Lemmas_C03 Lemmas_C15b.
 Import ListNotations.
 
-(* 1. the requested statement *)
+(* 1. the requested statement: quiescence is reached *)
 Theorem C15_reaches_quiescence : forall D m (w : sworld),
   d_mutex D = false ->
   wf_desc D m -> Safe D m (st _ _ _ w) ->             (* safety invariant, e.g. any reachable state *)
@@ -31,7 +39,24 @@ Theorem C15_reaches_quiescence : forall D m (w : sworld),
 Proof. exact Lemmas_C15b.C15_reaches_quiescence_proof. Qed.
 Print Assumptions C15_reaches_quiescence.
 
-(* 2. the same without J: all that is used of J is that the hold flag is clear *)
+(* 2. with the explicit bound: linear in the remaining script entries, the pending input and the
+   queued events; the coefficients are sizes of the configuration.  Needs the (always true in
+   reachable states, but not part of Safe) fact that the queue holds at most d_cap events. *)
+Theorem C15_reaches_quiescence_bound : forall D m (w : sworld),
+  d_mutex D = false ->
+  wf_desc D m -> Safe D m (st _ _ _ w) ->
+  J (ctl_of (st _ _ _ w)) ->
+  rd_sched (io _ _ _ w) = [] -> wr_sched (io _ _ _ w) = [] ->
+  script_ok no_hold_res (hs _ _ _ w) = true ->
+  k_state (k (st _ _ _ w)) <> CS_HOLD ->
+  script_ok (res_calls_ok D) (hs _ _ _ w) = true ->
+  u_count (u (st _ _ _ w)) <= d_cap D ->
+  exists n, n <= C15_bound D w /\
+    snd (do_op D sio smu shs s_read s_write s_lock s_unlock s_call (nsvc D n w) OService) = ST_OK.
+Proof. exact Lemmas_C15b.C15_reaches_quiescence_bound_proof. Qed.
+Print Assumptions C15_reaches_quiescence_bound.
+
+(* 3. statement 1 without J: all that is used of J is that the hold flag is clear *)
 Theorem C15_reaches_quiescence_unheld : forall D m (w : sworld),
   d_mutex D = false ->
   wf_desc D m -> Safe D m (st _ _ _ w) ->
@@ -42,3 +67,53 @@ Theorem C15_reaches_quiescence_unheld : forall D m (w : sworld),
   exists n, snd (do_op D sio smu shs s_read s_write s_lock s_unlock s_call (nsvc D n w) OService) = ST_OK.
 Proof. exact Lemmas_C15b.C15_reaches_quiescence_unheld. Qed.
 Print Assumptions C15_reaches_quiescence_unheld.
+
+(* ------------------------------------------------------------------ *)
+(* non-vacuity: a scripted run                                          *)
+(* ------------------------------------------------------------------ *)
+
+Definition rets (h : list event) : list Z :=
+  flat_map (fun e => match e with ERet _ r => [r] | _ => [] end) h.
+Definition written (h : list event) : list N :=
+  flat_map (fun e => match e with EWr _ ch true => [ch] | _ => [] end) h.
+
+(* one command "+X" with read and run handlers, no mutex, queue capacity 2 *)
+Definition exD : desc :=
+  mkDesc [[mkCmd [43; 88]%N None false true true false [] false false false]] [] 16 None 0%N 2 false.
+Local Notation exdo := (do_op exD sio smu shs s_read s_write s_lock s_unlock s_call).
+
+(* input "AT+X?\n" pending, two read events of "+X" queued; the read handler answers "+X=1",
+   "+X=2", "+X=3" with CAT_RETURN_STATE_DATA_OK, then its script is exhausted *)
+Definition exW : sworld :=
+  srun exD (sinit exD [] (mkSio [65; 84; 43; 88; 63; 10]%N [] []) (mkSmu [] [])
+             [((1, 0, 0), [mkHres RC_DATA_OK (Some [43; 88; 61; 49]%N) [] [];
+                           mkHres RC_DATA_OK (Some [43; 88; 61; 50]%N) [] [];
+                           mkHres RC_DATA_OK (Some [43; 88; 61; 51]%N) [] []])])
+       [SOp (OTrigger 0 T_READ); SOp (OTrigger 0 T_READ)].
+
+(* 39 calls answer BUSY; they emit the two events, then the command's response and "OK";
+   the 40th call answers OK *)
+Example C15b_ex_run :
+  script_left (hs _ _ _ exW) = 3 /\ length (inq (io _ _ _ exW)) = 6 /\ u_count (u (st _ _ _ exW)) = 2 /\
+  map (fun n => snd (exdo (nsvc exD n exW) OService)) (seq 0 41) = repeat ST_BUSY 39 ++ [ST_OK; ST_OK] /\
+  written (hist _ _ _ (nsvc exD 39 exW)) =
+    [10; 43; 88; 61; 49; 10;  10; 43; 88; 61; 50; 10;  10; 43; 88; 61; 51; 10;  10; 79; 75; 10]%N.
+Proof. vm_compute. repeat split; reflexivity. Qed.
+
+(* the hypotheses of the theorems hold for this world, and the bound is 116280 (the run takes 39) *)
+Example C15b_ex_hypotheses :
+  d_mutex exD = false /\ wf_desc exD [] /\ Safe exD [] (st _ _ _ exW) /\
+  k_hold (k (st _ _ _ exW)) = false /\ k_state (k (st _ _ _ exW)) <> CS_HOLD /\
+  rd_sched (io _ _ _ exW) = [] /\ wr_sched (io _ _ _ exW) = [] /\
+  script_ok no_hold_res (hs _ _ _ exW) = true /\ script_ok (res_calls_ok exD) (hs _ _ _ exW) = true /\
+  u_count (u (st _ _ _ exW)) <= d_cap exD /\ N.of_nat (C15_bound exD exW) = 116280%N.
+Proof.
+  split; [reflexivity|]. split.
+  { unfold wf_desc. cbn. repeat split; try lia; repeat (apply Forall_cons; [apply Forall_nil|]); apply Forall_nil. }
+  split.
+  { unfold Safe, Base, KS, US, ring_ok, cmd_wk. cbn. repeat split; try lia.
+    repeat (apply Forall_cons; [cbn; lia|]). apply Forall_nil. }
+  split; [reflexivity|]. split; [cbn; discriminate|].
+  split; [reflexivity|]. split; [reflexivity|]. split; [reflexivity|]. split; [reflexivity|].
+  split; [cbn; lia | vm_compute; reflexivity].
+Qed.
